@@ -3409,7 +3409,7 @@ impl fmt::Display for Statement {
                     "INSERT{overwrite}{local} DIRECTORY '{path}'",
                     overwrite = if *overwrite { " OVERWRITE" } else { "" },
                     local = if *local { " LOCAL" } else { "" },
-                    path = path
+                    path = value::escape_single_quote_string(path)
                 )?;
                 if let Some(ref ff) = file_format {
                     write!(f, " STORED AS {ff}")?
@@ -3767,10 +3767,14 @@ impl fmt::Display for Statement {
                 }
                 write!(f, " {db_name}")?;
                 if let Some(l) = location {
-                    write!(f, " LOCATION '{l}'")?;
+                    write!(f, " LOCATION '{}'", value::escape_single_quote_string(l))?;
                 }
                 if let Some(ml) = managed_location {
-                    write!(f, " MANAGEDLOCATION '{ml}'")?;
+                    write!(
+                        f,
+                        " MANAGEDLOCATION '{}'",
+                        value::escape_single_quote_string(ml)
+                    )?;
                 }
                 Ok(())
             }
@@ -4792,7 +4796,11 @@ impl fmt::Display for Statement {
                     write!(f, " COPY_OPTIONS=({})", copy_options)?;
                 }
                 if comment.is_some() {
-                    write!(f, " COMMENT='{}'", comment.as_ref().unwrap())?;
+                    write!(
+                        f,
+                        " COMMENT='{}'",
+                        value::escape_single_quote_string(comment.as_ref().unwrap())
+                    )?;
                 }
                 Ok(())
             }
@@ -4832,12 +4840,26 @@ impl fmt::Display for Statement {
                 if files.is_some() {
                     write!(
                         f,
-                        " FILES = ('{}')",
-                        display_separated(files.as_ref().unwrap(), "', '")
+                        " FILES = ({})",
+                        display_comma_separated(
+                            &files
+                                .as_ref()
+                                .unwrap()
+                                .iter()
+                                .map(|file| format!(
+                                    "'{}'",
+                                    value::escape_single_quote_string(file)
+                                ))
+                                .collect::<Vec<_>>()
+                        )
                     )?;
                 }
                 if pattern.is_some() {
-                    write!(f, " PATTERN = '{}'", pattern.as_ref().unwrap())?;
+                    write!(
+                        f,
+                        " PATTERN = '{}'",
+                        value::escape_single_quote_string(pattern.as_ref().unwrap())
+                    )?;
                 }
                 if !file_format.options.is_empty() {
                     write!(f, " FILE_FORMAT=({})", file_format)?;
@@ -6966,9 +6988,15 @@ impl fmt::Display for CreateFunctionUsing {
     fn fmt(&self, f: &mut fmt::Formatter) -> fmt::Result {
         write!(f, "USING ")?;
         match self {
-            CreateFunctionUsing::Jar(uri) => write!(f, "JAR '{uri}'"),
-            CreateFunctionUsing::File(uri) => write!(f, "FILE '{uri}'"),
-            CreateFunctionUsing::Archive(uri) => write!(f, "ARCHIVE '{uri}'"),
+            CreateFunctionUsing::Jar(uri) => {
+                write!(f, "JAR '{}'", value::escape_single_quote_string(uri))
+            }
+            CreateFunctionUsing::File(uri) => {
+                write!(f, "FILE '{}'", value::escape_single_quote_string(uri))
+            }
+            CreateFunctionUsing::Archive(uri) => {
+                write!(f, "ARCHIVE '{}'", value::escape_single_quote_string(uri))
+            }
         }
     }
 }
